@@ -1660,7 +1660,7 @@ fn process_stream_search_params<T: Read + Write>(
         i += 1;
     }
     let next_search_idx = if i < stream_msgs_len {
-        Some(i + 1)
+        Some(i) // the first position not yet checked
     } else {
         None
     };
